@@ -164,7 +164,7 @@ func checkAnswersEmpty(st *trie.SlimTrie, qs []string, what string) error {
 
 // streamOf produces the byte stream of a case: current format or a legacy layout.
 func streamOf(c *Case) ([]byte, error) {
-	if c.Load != "" && c.Load != "reload" && c.Load != "proto" && c.Load != "fresh" {
+	if c.Load != "" && c.Load != "reload" && c.Load != "proto" && c.Load != "fresh" && c.Load != "over" {
 		return safeLegacyStream(c, c.Load)
 	}
 	var b []byte
@@ -183,7 +183,7 @@ func streamOf(c *Case) ([]byte, error) {
 }
 
 func isLegacyLoad(c *Case) bool {
-	return c.Load != "" && c.Load != "reload" && c.Load != "proto" && c.Load != "fresh"
+	return c.Load != "" && c.Load != "reload" && c.Load != "proto" && c.Load != "fresh" && c.Load != "over"
 }
 
 // scansOK: the stream's trie stores complete keys, so scans are legal.
@@ -225,6 +225,9 @@ func checkC05(c *Case, s *Stats) error {
 			return viol("marshal", "proto.Marshal differs from Marshal (err=%v)", e)
 		}
 		t2 = emptyTrie(c)
+		if c.Load == "over" {
+			t2 = usedInstance(c)
+		}
 		if c.Load == "proto" {
 			e = proto.Unmarshal(b, t2)
 		} else {
